@@ -210,13 +210,12 @@ def evaluate():
         # callee: a call whose callee is not a plain name — does the walker look inside the callee?
         callee_reads, callee_out = [], None
 
-        class CalleeProbe(ast.Attribute):
+        class CalleeProbe(ast.Constant):      # a HANDLED class: a walker that evaluates the callee reads `.value`
             def __getattribute__(self, name):
-                if name in ("value", "attr"):
+                if name in ("value", "kind"):
                     callee_reads.append(name)
                 return object.__getattribute__(self, name)
-        call = ast.Call(func=CalleeProbe(value=ast.Constant(value=1), attr="real", ctx=ast.Load()),
-                        args=[], keywords=[])
+        call = ast.Call(func=CalleeProbe(value=abs), args=[ast.Constant(value=1)], keywords=[])
         ast.fix_missing_locations(call)
         del callee_reads[:]
         try:
